@@ -859,7 +859,7 @@ pub fn repo_vectors(out: &mut Out) -> Vec<(String, Transaction, Vec<TxOut>)> {
             }
         }
     }
-    out.s("repo_vectors_found", v.len() == 3, || format!("found {:?}", v.iter().map(|x| x.0.clone()).collect::<Vec<_>>()));
+    out.pin("repo_vectors_found", v.len() == 3, || format!("found {:?}", v.iter().map(|x| x.0.clone()).collect::<Vec<_>>()));
     v
 }
 
